@@ -150,6 +150,28 @@ pub fn histories(tier: Tier) -> Vec<Hist> {
             ],
             deleted_nodes: vec![], deleted_refs: vec![(0, 1)], c11: true,
         },
+        // three days: a middle day exists on one peer only while BOTH peers wrote on the newest day (the exchange must
+        // compare histories, not only the last day)
+        Hist {
+            name: "older-day-missing-while-both-wrote-the-newest-day",
+            peers: 3,
+            steps: vec![
+                Step::Clock(1), cp(0, 0, "a"), Step::PullAll,
+                Step::Clock(5), cp(0, 1, "b"),
+                Step::Clock(9), cp(0, 2, "c"), Step::ClockMs(9, 3), cp(1, 3, "d"),
+            ],
+            deleted_nodes: vec![], deleted_refs: vec![], c11: false,
+        },
+        Hist {
+            name: "older-day-deletion-missing-while-both-wrote-the-newest-day",
+            peers: 3,
+            steps: vec![
+                Step::Clock(1), cp(0, 0, "a"), cp(0, 1, "k"), Step::PullAll,
+                Step::Clock(5), Step::Delete { peer: 0, slot: 0 },
+                Step::Clock(9), cp(0, 2, "c"), Step::ClockMs(9, 3), cp(1, 3, "d"),
+            ],
+            deleted_nodes: vec![0], deleted_refs: vec![], c11: true,
+        },
         // day boundaries: the first and the last millisecond of a day belong to exactly one day for the summary,
         // the served rows and the deletion records alike
         Hist {
